@@ -387,6 +387,7 @@ impl Prop for C19 {
             stats.steps += out.steps;
             stats.switches += out.switches;
             stats.sim_ns += clock as u128;
+            stats.add("clock.simulated_seconds_in_steps_up_to_1h", sim::with_rt(|rt| rt.clock_small_ns) / 1_000_000_000);
             self.collect_stats(stats, &run, &events, &ostats);
             stats.add("fault.io_error.sites_asked", io_asked);
             for f in io_fired.iter() {
